@@ -30,6 +30,11 @@ def check_dispatch(rep: Report, rule: str, f: FuncInfo, selector: str, documente
     """The dispatcher handles every documented option, every literal it tests is documented (or internal),
     and a value outside the literal set reaches a raise on every path (no silent fall-through)."""
     cfg = cfg_of(f)
+    # the selector may be tested under its own name or as the expression it names (`method = opts['method']`)
+    from ..util import single_assignments
+    sa_ = single_assignments(f.node).get(selector)
+    if sa_ is not None and not selector_literals(f, selector) and selector_literals(f, norm(sa_)):
+        selector = norm(sa_)
     lits = selector_literals(f, selector)
     where = f.fq()
     alldoc: Set[str] = set().union(*documented.values()) if documented else set()
